@@ -60,8 +60,10 @@ def signature(case):
 def make_cases(rng, tier):
     n = 900 if tier == "quick" else 20000
     cases, extra_bad = [], []
+    progs = mp.forced_backtrack_cases(rng, n // 5)
     for _ in range(n):
-        p, _c = mp.gen_mprog(rng, rng.choice([1, 2, 3, 4, 5, 7, 9]))
+        progs.append(mp.gen_mprog(rng, rng.choice([1, 2, 3, 4, 5, 7, 9]))[0])
+    for p in progs:
         try:
             w, rel, res = mp.run_build(p)
         except Exception as e:  # noqa: BLE001 — e.g. a placeholder operation met by the decoder
